@@ -23,6 +23,7 @@ def replayer(fn):
 
 
 def catching(fn, *a, **kw):
+    real.tick_logging()
     try:
         with real.deadline(8):
             return ('ok', fn(*a, **kw))
@@ -1719,6 +1720,102 @@ def c12_anyframe_case(kind, payload):
     return None
 
 
+def unshare(v):
+    """an equal value in which no container object occurs twice"""
+    if isinstance(v, dict):
+        return {k: unshare(x) for k, x in v.items()}
+    if isinstance(v, list):
+        return [unshare(x) for x in v]
+    if isinstance(v, bytearray):
+        return bytearray(v)
+    return v
+
+
+def reshare(v, pool):
+    """an equal value in which equal sub-containers ARE one object (maximal sharing; self-contained for replays)"""
+    if isinstance(v, dict):
+        out = {k: reshare(x, pool) for k, x in v.items()}
+    elif isinstance(v, list):
+        out = [reshare(x, pool) for x in v]
+    else:
+        return v
+    return pool.setdefault(pyrepr(out), out)
+
+
+@replayer
+def c12_shared_case(v):
+    """one sub-container referenced from several places; an equal value built from separate copies must give
+    the same bytes (and the same outcome), in both orders of asking"""
+    v = reshare(v, {})
+    w = unshare(v)
+    outs = []
+    for x in (v, w, v):
+        k, b = catching(encode.encode_table_value, x)
+        outs.append((k, b if k == 'ok' else type(b).__name__))
+    if outs[0] != outs[1] or outs[0] != outs[2]:
+        return ('same outcome with and without sharing: %s' % (outs[1][1].hex()[:120] if outs[1][0] == 'ok' else outs[1],),
+                outs[0][1].hex()[:120] if outs[0][0] == 'ok' else outs[0])
+    if isinstance(v, dict):
+        k, b = catching(frame.marshal, commands.Queue.Declare(queue='q', arguments=v), 1)
+        k2, b2 = catching(frame.marshal, commands.Queue.Declare(queue='q', arguments=w), 1)
+        if (k, b if k == 'ok' else type(b).__name__) != (k2, b2 if k2 == 'ok' else type(b2).__name__):
+            return ('Queue.Declare: same outcome with and without sharing', '%s / %s' % (k, k2))
+    return None
+
+
+@replayer
+def c12_decoded_case(t, order, how):
+    """encode `t` with its entries in the wire order `order` (a foreign peer need not sort), decode it, edit the decoded
+    table in one of the ways a dict can be edited, encode: the bytes are those of an equal plain dict"""
+    body = b''.join(refenc.short_str(k) + refenc.field(t[k], False) for k in order) if hasattr(refenc, 'short_str') else None
+    if body is None:
+        body = b''
+        for k in order:
+            kb = k.encode('utf-8')
+            body += bytes([len(kb)]) + kb + encode.encode_table_value(t[k])
+    wire = struct.pack('>I', len(body)) + body
+    k0, r = catching(decode.field_table, wire)
+    if k0 != 'ok':
+        return None
+    d = r[1]
+    edits = how % 9
+    new = {'0-first': 1, 'zz-last': 'x', 'm-middle': [1]}
+    try:
+        if edits == 0:
+            pass
+        elif edits == 1:
+            d.update(new)
+        elif edits == 2:
+            for kk, vv in new.items():
+                d.setdefault(kk, vv)
+        elif edits == 3:
+            d |= new
+        elif edits == 4:
+            for kk, vv in new.items():
+                d[kk] = vv
+        elif edits == 5:
+            d.update(new)
+            d.pop('0-first')
+        elif edits == 6:
+            d = {**d, **new}
+        elif edits == 7:
+            d.update(list(new.items()))
+        else:
+            d.update(**{'zfirst': 1, 'alast': 2})
+    except Exception as e:  # noqa
+        return ('a decoded table can be edited like a dict', repr(e))
+    plain = unshare(dict(sorted(d.items(), reverse=True)))
+    k1, b1 = catching(encode.field_table, d)
+    k2, b2 = catching(encode.field_table, plain)
+    if k1 != k2 or (k1 == 'ok' and b1 != b2):
+        return (b2.hex()[:200] if k2 == 'ok' else k2, b1.hex()[:200] if k1 == 'ok' else k1)
+    k3, b3 = catching(frame.marshal, header.ContentHeader(0, 1, commands.Basic.Properties(headers=d)), 1)
+    k4, b4 = catching(frame.marshal, header.ContentHeader(0, 1, commands.Basic.Properties(headers=plain)), 1)
+    if k3 != k4 or (k3 == 'ok' and b3 != b4):
+        return ('headers: %s' % (b4.hex()[:200] if k4 == 'ok' else k4), b3.hex()[:200] if k3 == 'ok' else k3)
+    return None
+
+
 def oracle_c12(ctx):
     res = Result('c12.order')
     g = ctx.gen
@@ -1750,6 +1847,29 @@ def oracle_c12(ctx):
         if k != 'ok' or bad:
             res.violation('order dependence / nondeterminism / mutation', {'fn': 'c12_case', 'args': pyrepr((v, i))},
                           bad[0] if k == 'ok' else 'oracle runs', bad[1] if k == 'ok' else repr(bad))
+    # equal contents, different object graphs: one sub-container referenced several times / separate equal copies
+    shapes = []
+    sh = {'x': 1, 'b': [1, {'q': 2}]}
+    sl = [3, {'z': 1, 'a': 2}]
+    shapes += [{'a': sh, 'b': sh}, {'b': sh, 'a': sh, 'c': {'d': sh}}, [sh, sh], [sl, sl, [sl]], {'k': [sh, sh], 'l': sl, 'm': sl}, {'a': {}, 'b': {}}, [[], []]]
+    for _ in range(200 if ctx.thorough else 40):
+        shapes.append(g.shared_value_ok(g.r.choice([1, 2, 3]), 3))
+    for v in shapes:
+        res.case('shared ' + pyrepr(v), tag='shared sub-objects', trivial=False)
+        k, bad = catching(c12_shared_case, v)
+        if k != 'ok' or bad:
+            res.violation('a value with a shared sub-object encodes differently from an equal value without sharing',
+                          {'fn': 'c12_shared_case', 'args': pyrepr((v,))}, bad[0] if k == 'ok' else 'oracle runs', bad[1] if k == 'ok' else repr(bad))
+    # tables that come out of the DECODER (sorted or unsorted on the wire), edited the ways a dict can be edited
+    for i in range(600 if ctx.thorough else 120):
+        t = g.table_ok(depth=g.r.choice([1, 2]), breadth=g.r.choice([2, 3, 5]))
+        order = list(t)
+        g.r.shuffle(order)
+        res.case('decoded ' + pyrepr(t) + str(order), tag='decoded then edited', trivial=len(t) < 1)
+        k, bad = catching(c12_decoded_case, t, order, i)
+        if k != 'ok' or bad:
+            res.violation('a decoded table, edited, encodes differently from an equal plain dict',
+                          {'fn': 'c12_decoded_case', 'args': pyrepr((t, order, i))}, bad[0] if k == 'ok' else 'oracle runs', bad[1] if k == 'ok' else repr(bad))
     metas = [m for m in ctx.generated['catalogue']['methods'] if any(a['ty'] == 'table' for a in m['args'])]
     for i in range(1500 if ctx.thorough else 300):
         meta = g.r.choice(metas)
@@ -2259,6 +2379,22 @@ def c19_case(key, vals):
     bad = check(obj, vals)
     if bad:
         return bad
+    # an argument attribute that is absent (deleted, or never set on a bare instance): iteration and item access
+    # must tell the same story about it - both report it, or both fail
+    bare = cls.__new__(cls)
+    partial = real.make_props(vals) if key == 'props' else real.make_method(cls, vals)
+    for n in names[:1] + names[-1:]:
+        try:
+            delattr(partial, n)
+        except Exception:  # noqa
+            pass
+    for label, o in (('a bare instance', bare), ('an instance with deleted attributes', partial)):
+        ki, it = catching(lambda: dict(o))
+        kg, gi = catching(lambda: {n: o[n] for n in names})
+        ka, ga = catching(lambda: {n: getattr(o, n) for n in names})
+        if not (ki == kg == ka) or (ki == 'ok' and not (list(it.items()) == list(gi.items()) == list(ga.items()))):
+            return ('%s: dict(frame), item access and attribute access agree (all fail alike or all give the same values)' % label,
+                    'dict(frame): %s %r; frame[name]: %s; getattr: %s' % (ki, it if ki == 'ok' else type(it).__name__, kg, ka))
     if key == 'props':
         return None
     k, b = catching(frame.marshal, obj, 1)
@@ -2717,4 +2853,10 @@ def replay(rep):
     if fn is None:
         return ('replayable case', 'no replayer for %r' % rep.get('fn'))
     args = pyeval(rep['args'])
-    return fn(*args)
+    old = real.LOGMODE
+    real.LOGMODE = rep.get('logging', 'default')
+    try:
+        return fn(*args)
+    finally:
+        real.LOGMODE = old
+        real.tick_logging()
